@@ -108,6 +108,11 @@ impl ToRpcParams for RawP {
 
 /// (declared spelling, other-case spelling) per slot - RpcMacro.tla OtherSpelling; gen_c17_apis.py SLOTS
 const NAMES: [(&str, &str); 4] = [("p0", "p0"), ("second_param", "secondParam"), ("thirdArg", "third_arg"), ("d", "d")];
+/// wire names of the "odd" family (gen_c17_apis.py ODD): there is no other-case spelling
+const ODD_NAMES: [(&str, &str); 4] = [("_limit", "_limit"), ("type_", "type_"), ("chainID", "chainID"), ("block-hash", "block-hash")];
+fn names_of(ns: &str) -> &'static [(&'static str, &'static str); 4] {
+	if ns == "odd" { &ODD_NAMES } else { &NAMES }
+}
 
 fn gen_u64(rng: &mut StdRng) -> u64 {
 	match rng.random_range(0..8) {
@@ -172,6 +177,7 @@ fn shape_id(flags: &[&str], pk: &str, ns: &str) -> String {
 	format!("{f}_{}{}", if pk == "array" { 'a' } else { 'm' }, match ns {
 		"none" => 'n',
 		"under" => 'u',
+		"odd" => 'x',
 		_ => 'd',
 	})
 }
@@ -199,7 +205,7 @@ fn abstract_wire(w: &Value) -> Value {
 		"absent" => json!({"form": "absent"}),
 		"arr" => json!({"form": "arr", "toks": w["toks"].as_array().cloned().unwrap_or_default()}),
 		_ => json!({"form": "obj", "members": w["members"].as_array().map(|ms| ms.iter().map(|m| {
-			let (decl, other) = NAMES[m["slot"].as_u64().unwrap() as usize - 1];
+			let (decl, other) = names_of("none")[m["slot"].as_u64().unwrap() as usize - 1];
 			json!([if m["sp"] == "decl" { decl } else { other }, m["tok"]])
 		}).collect::<Vec<_>>()).unwrap_or_default()}),
 	}
@@ -277,7 +283,7 @@ async fn one_case(i: usize, k: usize, c: &Value, client: &Client, log: &Log, sen
 		if use_stub {
 			apis_generated::dispatch(&id, client, kind, &vals).await
 		} else {
-			let params = raw_params(&c["wire"], &vals, rng);
+			let params = raw_params(&c["wire"], c["ns"].as_str().unwrap_or("none"), &vals, rng);
 			if kind == "sub" {
 				first_item(client.subscribe::<Echo, _>(&name, params, &wire_name(&id, ns, "unsub")).await).await
 			} else {
@@ -358,7 +364,7 @@ async fn one_case(i: usize, k: usize, c: &Value, client: &Client, log: &Log, sen
 }
 
 /// concrete params of a raw call from the spec's abstract wire text
-fn raw_params(w: &Value, vals: &[Option<Value>], rng: &mut StdRng) -> RawP {
+fn raw_params(w: &Value, ns: &str, vals: &[Option<Value>], rng: &mut StdRng) -> RawP {
 	// a raw caller need not send the canonical serde form: sometimes leave out Nested.c when it is None
 	let mut val = |slot: usize| -> Value {
 		let mut v = vals[slot].clone().expect("token v only for present slots");
@@ -388,7 +394,7 @@ fn raw_params(w: &Value, vals: &[Option<Value>], rng: &mut StdRng) -> RawP {
 			let mut o = ObjectParams::new();
 			for m in ms {
 				let slot = m["slot"].as_u64().unwrap() as usize - 1;
-				let name = if m["sp"] == "decl" { NAMES[slot].0 } else { NAMES[slot].1 };
+				let name = if m["sp"] == "decl" { names_of(ns)[slot].0 } else { names_of(ns)[slot].1 };
 				if m["tok"] == "v" { o.insert(name, val(slot)).unwrap() } else { o.insert(name, Value::Null).unwrap() }
 			}
 			RawP::Obj(o)
